@@ -230,6 +230,8 @@ def _sid(b, op_or_origin, is_origin=False):
     l = _local_of(o)
     if l is not None:
         return "local%d" % l
+    if o[0] == "call":
+        return "%s@bb%d" % (mir.o_str(o), o[1].bb)   # two calls of the same function are two sequences
     return mir.o_str(o)
 
 
@@ -548,3 +550,56 @@ def _discharge_range(b, s):
                 if e2[0] == "binop" and e2[1].startswith("Add") and "start" in f and mir.o_str(e2[2]) == mir.o_str(f["start"]):
                     return "end = start + n and end <= length by the dominating guard"
     return None
+
+
+def cursor_pairing(b):
+    """Cross-check of cursors and the sequences they walk (contradiction rule): a local that is compared with the length of
+    one sequence but used to index (or range-index) a *different* one, which it is never compared with, is a slip -
+    `b[ai..]` where `ai` is bounded by `a.len()`.  Returns (ok, detail, sites)."""
+    def cursor_of(o):
+        # the local a start/index value is read from (through Range/RangeFrom aggregates)
+        if o[0] == "agg" and (o[1].get("adt") or "").split("::")[-1] in ("Range", "RangeFrom", "RangeInclusive"):
+            f = dict(zip(o[1].get("fields") or [], o[2]))
+            o = f.get("start", o)
+        if o[0] == "local":
+            return o[1]
+        if o[0] == "phi" and len(o) > 2:
+            return o[2]
+        return None
+
+    indexes = {}   # cursor local -> {container id: loc}
+    compares = {}  # cursor local -> {container id}
+    for bb, t in b.terminators():
+        if b.blocks[bb]["cleanup"]:
+            continue
+        if t["k"] == "assert" and isinstance(t.get("msg"), dict) and t["msg"].get("k") == "bounds":
+            cur = cursor_of(b.origin(t["msg"]["index"]))
+            cont = _len_target(b, b.origin(t["msg"]["len"]))
+            if cur is not None and cont is not None:
+                indexes.setdefault(cur, {})[cont] = "%s:%s" % (b.file, t.get("line"))
+        if t["k"] == "call" and t["callee"].get("name") in ("index", "index_mut", "get", "get_mut", "get_unchecked", "split_at") and len(t.get("args", ())) == 2:
+            cs = mir.CallSite(b, bb, t)
+            cur = cursor_of(b.origin(cs.args[1]))
+            if cur is not None:
+                indexes.setdefault(cur, {})[_sid(b, cs.args[0])] = cs.loc
+    for bb, j, st in b.statements(normal_only=True):
+        if st["k"] == "assign" and st["rv"]["k"] == "binop" and st["rv"]["op"] in ("Lt", "Le", "Gt", "Ge", "Eq", "Ne"):
+            x, y = b.origin(st["rv"]["a"]), b.origin(st["rv"]["b"])
+            for cur_o, len_o in ((x, y), (y, x)):
+                cur = cursor_of(cur_o)
+                cont = _len_target(b, len_o)
+                if cur is not None and cont is not None:
+                    compares.setdefault(cur, set()).add(cont)
+    sites = []
+    for cur, conts in indexes.items():
+        cmp = compares.get(cur)
+        if not cmp:
+            continue
+        for cont, loc in conts.items():
+            sites.append(loc)
+            if cont not in cmp:
+                nm = b.local_name(cur) or "_%d" % cur
+                return False, ("`%s` is bounded by the length of %s but indexes %s at %s: a cursor of one sequence is applied to another "
+                               "(out-of-range panic or wrong elements when the two advance differently)"
+                               % (nm, sorted(cmp), cont, loc)), [], loc
+    return True, "", sites
